@@ -359,7 +359,10 @@ class Context:
             self.logger.warn('Context.load_processes: failed to get all process info from'
                              f' Supvisors={status.usage_identifier}')
             # go back to STOPPED to give it a chance at next TICK
-            status.state = SupvisorsInstanceStates.STOPPED
+            # NOTE: the notification may be obsolete (CHECKING phase too long), so only a Supvisors instance
+            #       still in CHECKING state (or already FAILED) can be set back to STOPPED
+            if status.state in [SupvisorsInstanceStates.CHECKING, SupvisorsInstanceStates.FAILED]:
+                status.state = SupvisorsInstanceStates.STOPPED
         elif not check_state or status.state == SupvisorsInstanceStates.CHECKING:
             # TODO: check process remote monotonic time vs CHECKING local time
             # store processes into their application entry
@@ -574,8 +577,10 @@ class Context:
         :return: None.
         """
         # processes will be dealt in FAILED processing
-        status.state = SupvisorsInstanceStates.FAILED
-        self.export_status(status)
+        # NOTE: the notification may be obsolete, e.g. if the Supvisors instance has been invalidated in the meantime
+        if status.has_active_state():
+            status.state = SupvisorsInstanceStates.FAILED
+            self.export_status(status)
 
     def on_process_removed_event(self, status: SupvisorsInstanceStatus, event: Payload) -> None:
         """ Method called upon reception of a process removed event from the remote Supvisors instance.
